@@ -381,6 +381,42 @@ pub fn judge_partial_fields(v: &Vector, o: &Obs, buf: &[u8], out: &mut Tags) {
     }
 }
 
+
+/// fields the specification had determined while the parse was still Partial, compared with
+/// what the code reports once the parse has been brought to an end (they are final)
+pub fn judge_determined_fields(v: &Vector, o: &Obs, buf: &[u8], out: &mut Tags) {
+    let lp = v.language_prop();
+    let mut chk = |name: &str, s: &Option<Sl>, want: (usize, usize)| {
+        if want != (0, 0) && !span_eq(s, want, buf) {
+            out.push((lp, format!("{} of the completed parse is {} but the specification had determined [{},{})", name, show(s, buf), want.0, want.1)));
+        }
+    };
+    match v.kind {
+        K_REQ => {
+            chk("method", &o.method, v.method);
+            chk("path", &o.path, v.path);
+        }
+        K_RESP => {
+            if v.hasreason {
+                if !span_eq(&o.reason, v.reason, buf) {
+                    out.push((lp, format!("reason of the completed parse is {} but the specification had determined [{},{})", show(&o.reason, buf), v.reason.0, v.reason.1)));
+                }
+            }
+        }
+        _ => {}
+    }
+    if (v.kind == K_REQ || v.kind == K_RESP) && v.version != NOVAL {
+        if o.version.map(|x| x as u32) != Some(v.version) {
+            out.push((lp, format!("version of the completed parse is {:?} but the specification had determined {}", o.version, v.version)));
+        }
+    }
+    if v.kind == K_RESP && v.code != NOVAL {
+        if o.code.map(|x| x as u32) != Some(v.code) {
+            out.push((lp, format!("code of the completed parse is {:?} but the specification had determined {}", o.code, v.code)));
+        }
+    }
+}
+
 /// C17: header array after the call, judged against the statement (lenient:
 /// "previous content or a header from this buffer")
 pub fn judge_storage(v: &Vector, o: &Obs, buf: &[u8], entry: u8, out: &mut Tags, drift: &mut Vec<String>) {
